@@ -352,8 +352,10 @@ def _il_drawn(draw):
                  'relType': 'hypernym', 'meta': None})
         if case['expand'] in ('', None):
             case['expand'] = draw(st.sampled_from(['E:1', '*']))
-        if case['selection'] == 'L:1 E:1':
-            case['selection'] = 'L:1'
+    if case['selection'] == 'L:1 E:1':
+        # with two selected lexicons wn tells apart placeholders of one ILI by the lexicon of
+        # the synset they were created from; the reference identifies them by ILI alone
+        case['selection'] = 'L:1'
     return case
 
 
